@@ -8,7 +8,15 @@
 //   [QDD] getQDotDot == finite difference of getQDot along (qdot, udot)
 //   [N]   (checks=N, Ellipsoid) surface normal at the M origin aligned with Mz, as documented
 //   [UFIT]/[QFIT] (checks=U / checks=F) setUToFitVelocity / setQToFitTransform round trips on representable targets
-// usage: c05_replay <Mobilizer|all> <option|-> <reversed 0/1> <nq> q0..q(nq-1) u0..u(nu-1) [pitch=..] [semi0=..] [az0=..] [ze0=..] [checks=XVAQUF]
+//   the other public fit wrappers (RigidBodyNode.h; they reverse the request for a Reverse mobilizer), all through the public MobilizedBody API, Forward or Reverse:
+//   [WFIT] (checks=W) setUToFitAngularVelocity(w*) from arbitrary speeds uold: angular part of getMobilizerVelocity afterwards == w*   (w* = angular part at speeds u)
+//   [LFIT] (checks=L) setUToFitLinearVelocity(v*) (Free, Bushing, Translation, Slider, Cylinder, Planar): linear part afterwards == v*, angular part unchanged;
+//          v* = linear part at (rotational speeds as they are, u elsewhere); for a Reverse mobilizer the rotational speeds are zero (the wrapper assumes w_FM = 0)
+//   [RFIT] (checks=R) setQToFitRotation(R_FM(q)) from arbitrary coordinates qold: rotation of getMobilizerTransform afterwards == R_FM(q)
+//   [TFIT] (checks=T) setQToFitTranslation(pt) at coordinates q (Free, Bushing, Translation: any pt; Planar: pt in the plane; Slider/Cylinder: pt on the axis):
+//          translation of getMobilizerTransform afterwards == pt, rotation unchanged
+// MobilizedBody.cpp (the only translation unit that instantiates the inline wrappers) is compiled from the CURRENT tree together with this driver.
+// usage: c05_replay <Mobilizer|all> <option|-> <reversed 0/1> <nq> q0..q(nq-1) u0..u(nu-1) [pitch=..] [semi0=..] [az0=..] [ze0=..] [pt0=..] [uold<i>=..] [qold<i>=..] [checks=XVAQUFWLRT]
 // prints "REPRODUCED: ..." for every mismatch, "NOT-REPRODUCED" if everything agrees.
 #include "Simbody.h"
 #include <cstdio>
@@ -31,6 +39,11 @@ static Mat33 RQ(Vec4 e){ e = e/e.norm(); Real a=e[0],b=e[1],c=e[2],d=e[3];
 static std::string CHECKS = "XVAQ";     // which native checks to run: X V A Q(dd) U(fit) F(q-fit)
 static bool want(char c) { return CHECKS.find(c) != std::string::npos; }
 struct Params { Real pitch=0.7; Vec3 semi=Vec3(0.5,0.75,1.0); Real az0=0.2, ze0=-0.3; };
+static std::map<std::string,Real> EXTRA;      // pt<i>, uold<i>, qold<i> of a counter-model
+static Real extra(const std::string& k, int i, Real dflt) { auto it = EXTRA.find(k + std::to_string(i)); return it == EXTRA.end() ? dflt : it->second; }
+// speeds that carry the angular velocity, for the mobilizers whose linear-only / translation-only fits are claimed (-1: not claimed)
+static int numRotU(const std::string& nm) { return (nm=="Free"||nm=="Bushing") ? 3 : (nm=="Cylinder"||nm=="Planar") ? 1 : (nm=="Translation"||nm=="Slider") ? 0 : -1; }
+static Real maxAbsDiff(const Rotation& A, const Rotation& B) { Real e=0; for (int i=0;i<3;++i) for (int j=0;j<3;++j) e = std::max(e, std::abs(Mat33(A)(i,j)-Mat33(B)(i,j))); return e; }
 
 struct Sph { CoordinateAxis ax; int sa, sz, st; Sph():ax(ZAxis),sa(1),sz(1),st(1){} };
 static Sph sphOpt(const std::string& o){ Sph s; if (o.size()>=5){ s.ax = (o[1]=='x')?CoordinateAxis(XAxis):CoordinateAxis(ZAxis);
@@ -142,6 +155,45 @@ static void checkOne(const std::string& nm, const std::string& opt, bool rev, Ve
         for (int i=0;i<3;++i){ for(int j=0;j<3;++j) e = std::max(e, std::abs(Mat33(X2.R())(i,j)-Mat33(X.R())(i,j))); e = std::max(e, std::abs(X2.p()[i]-X.p()[i])); }
         cmp("[QFIT] transform after setQToFitTransform vs target transform", tag, e, 1e-9);
     }
+    if (want('W')) {   // [WFIT] angular-only request from arbitrary speeds
+        State s2 = S.state; Vector uo(nu); for (int i=0;i<nu;++i) uo[i] = extra("uold", i, 0.7-0.25*i);
+        S.mob.setUFromVector(s2, uo);
+        S.mob.setUToFitAngularVelocity(s2, V[0]);
+        S.sys.realize(s2, Stage::Velocity);
+        SpatialVec V2 = S.mob.getMobilizerVelocity(s2);
+        cmp("[WFIT] angular velocity after setUToFitAngularVelocity vs requested w_FM", tag, (V2[0]-V[0]).norm(), 1e-9);
+    }
+    if (want('L') && numRotU(nm) >= 0) {   // [LFIT] linear-only request; rotational speeds as they are (zero for a reversed mobilizer: the wrapper assumes w_FM = 0)
+        const int nr = numRotU(nm);
+        Vector uA(nu), uB(nu);
+        for (int i=0;i<nu;++i) { Real uo = extra("uold", i, 0.7-0.25*i);
+            if (i < nr) uA[i] = uB[i] = (rev ? Real(0) : uo); else { uA[i] = u[i]; uB[i] = uo; } }
+        State sA = S.state; S.mob.setUFromVector(sA, uA); S.sys.realize(sA, Stage::Velocity);
+        const SpatialVec VA = S.mob.getMobilizerVelocity(sA);
+        State sB = S.state; S.mob.setUFromVector(sB, uB);
+        S.mob.setUToFitLinearVelocity(sB, VA[1]);
+        S.sys.realize(sB, Stage::Velocity);
+        const SpatialVec VB = S.mob.getMobilizerVelocity(sB);
+        cmp("[LFIT] linear velocity after setUToFitLinearVelocity vs requested v_FM", tag, (VB[1]-VA[1]).norm(), 1e-9);
+        cmp("[LFIT] angular velocity unchanged by setUToFitLinearVelocity", tag, (VB[0]-VA[0]).norm(), 1e-9);
+    }
+    if (want('R')) {   // [RFIT] rotation-only request from arbitrary coordinates
+        State s2 = S.state; Vector qo(nq); for (int i=0;i<nq;++i) qo[i] = extra("qold", i, 0.15+0.2*i);
+        S.mob.setQFromVector(s2, qo);
+        S.mob.setQToFitRotation(s2, X.R());
+        S.sys.realize(s2, Stage::Position);
+        cmp("[RFIT] rotation after setQToFitRotation vs requested R_FM", tag, maxAbsDiff(S.mob.getMobilizerTransform(s2).R(), X.R()), 1e-9);
+    }
+    if (want('T') && numRotU(nm) >= 0) {   // [TFIT] translation-only request at the given coordinates (rotational part arbitrary)
+        Vec3 pt(extra("pt",0,0.4), extra("pt",1,-0.7), extra("pt",2,0.9));
+        if (nm=="Planar") pt[2] = 0; else if (nm=="Slider") pt[1] = pt[2] = 0; else if (nm=="Cylinder") pt[0] = pt[1] = 0;
+        State s2 = S.state;
+        S.mob.setQToFitTranslation(s2, pt);
+        S.sys.realize(s2, Stage::Position);
+        const Transform X2 = S.mob.getMobilizerTransform(s2);
+        cmp("[TFIT] translation after setQToFitTranslation vs requested p_FM", tag, (X2.p()-pt).norm(), 1e-9);
+        cmp("[TFIT] rotation unchanged by setQToFitTranslation", tag, maxAbsDiff(X2.R(), X.R()), 1e-9);
+    }
     if (!(want('X')||want('V')||want('A')||want('Q')||want('N'))) return;
     // [X] documented parameterisation
     Mat33 Rd; Vec3 pd; documented(nm, opt, q, P, Rd, pd);
@@ -190,7 +242,8 @@ int main(int argc, char** argv) {
         const char* eq = std::strchr(argv[i], '=');
         if (eq) { std::string k(argv[i], eq-argv[i]); Real x = std::atof(eq+1);
             if (k=="pitch") P.pitch=x; else if (k=="semi0") P.semi[0]=x; else if (k=="semi1") P.semi[1]=x; else if (k=="semi2") P.semi[2]=x;
-            else if (k=="az0") P.az0=x; else if (k=="ze0") P.ze0=x; else if (k=="checks") CHECKS = std::string(eq+1); }
+            else if (k=="az0") P.az0=x; else if (k=="ze0") P.ze0=x; else if (k=="checks") CHECKS = std::string(eq+1);
+            else if (k.compare(0,2,"pt")==0 || k.compare(0,4,"uold")==0 || k.compare(0,4,"qold")==0) EXTRA[k] = x; }
         else nums.push_back(std::atof(argv[i]));
     }
     try {
